@@ -179,6 +179,7 @@ def feats_of(op, i, case):
         f.append('carrier-' + str(car))
         kw = op[4] if op[0] == 'update' else op[3]
         if kw: f.append('selection')
+        if any(isinstance(v, list) and len(v) > 950 for _, v in kw): f.append('selection-over-950-values')
         lens = {len(v) if isinstance(v, (list, str)) else -1 for v in vals}
         if len(lens) > 1: f.append('ragged-values')
     if op[0] == 'update_column':
@@ -187,6 +188,52 @@ def feats_of(op, i, case):
     if len(case['structs']) > 1: f.append('multi-table')
     if G.is_err(i): f.append('error-' + i[1])
     return f if op[0] in G.MODIFYING else (f if op[0] == 'get' and op[1] == '*' else [])
+
+def long_selection_case(ctx, rep, case):
+    """update() with a selection of more than 950 values: "the i-th supplied value row lands on the i-th atom that the
+    SAME selection returns, and no other atom, attribute, row count or row order changes" — read literally: the order is
+    the one get() gives for that selection on that object (for such lists it is the piece order, known finding F11 of
+    C17), so the prediction is computed from the implementation's own get() and a plain list-of-records update."""
+    import io, contextlib
+    lib = import_impl()
+    rng = random.Random(case['seed'])
+    impl = G.Impl(lib, case)
+    feats = ['op-update', 'selection', 'selection-over-950-values']
+    try:
+        db = impl.db
+        cols = case['columns'].split(',')
+        kw = dict(case['selection'])
+        with contextlib.redirect_stdout(io.StringIO()):
+            before = db.get('*')
+            order = db.get('rowID', **kw)
+            def val(c):
+                if c in ('x', 'y', 'z', 'temp', 'occ'): return rng.randint(-8000, 8000) * 0.125
+                if c in ('resSeq', 'serial'): return rng.randint(-999, 9999)
+                return rng.choice(['N', 'CA', 'C', 'O', 'CB'])
+            values = [[val(c) for c in cols] for _ in order]
+            try:
+                db.update(case['columns'], values, **kw)
+                res = ['OK']
+            except BaseException as e:
+                if isinstance(e, (KeyboardInterrupt, MemoryError)): raise
+                res = ['ERR', exc_class(e)]
+            after = db.get('*')
+        names = [c for c, _ in G.COLS]
+        pred = [list(r) for r in before]
+        for i, rid in enumerate(order):
+            for c, v in zip(cols, values[i]):
+                pred[rid][names.index(c)] = v
+        sub = {k: v for k, v in case.items() if not k.startswith('_')}
+        rep.case({'part': 'long-selection', 'n': len(before), 'columns': case['columns'], 'selection_head': case['selection'][0][1][:5], 'seed': case['seed']}, feats, nontrivial=True)
+        if res != ['OK']:
+            rep.mismatch('impl_vs_spec', sub, what='update with a well-shaped value list raised', impl=res)
+        elif after != pred:
+            k = next(i for i, (x, y) in enumerate(zip(after, pred)) if x != y) if len(after) == len(pred) else -1
+            rep.mismatch('impl_vs_spec', sub, what='the i-th value row did not land on the i-th atom the same selection returns (or another cell changed)',
+                         row=k, got=after[k] if k >= 0 else len(after), expected=pred[k] if k >= 0 else len(pred),
+                         selection_order_head=order[:5])
+    finally:
+        impl.close()
 
 def explore(ctx, tier, rng, search=False):
     rep = Report()
@@ -218,6 +265,18 @@ def explore(ctx, tier, rng, search=False):
         g = HistGen(rng, structs, names)
         case['ops'] = [g.op() for _ in range(rng.randint(1, 8))]
         cases.append(case)
+    # selections listing more than 950 values (answered piece by piece): checked against the statement read literally
+    long_cases = []
+    for h in range(12 if deep else 2):
+        n = rng.randint(1000, 1100)
+        atoms = G.gen_atoms(rng, n, chains=('A', 'B'))
+        ids = list(range(n))
+        L = rng.choice([ids[::-1], ids[300:] + ids[:300], rng.sample(ids, 960), sorted(rng.sample(ids, 955), reverse=True)])
+        col = rng.choice(['temp', 'x,y,z', 'resSeq', 'name'])
+        long_cases.append({'structs': [atoms], 'kind': 'pdb2sql', 'part': 'long-selection', 'columns': col,
+                           'selection': [['rowID', L]], 'seed': rng.randrange(1 << 30)})
+    for c in long_cases:
+        long_selection_case(ctx, rep, c)
     G.run_cases(ctx, rep, cases, feats_of, keep_reqs=24, dyn=concretise)
     rep.input_distribution = {'histories': nh, 'operations': sum(len(c['ops']) for c in cases),
                               'with_two_tables': sum(1 for c in cases if len(c['structs']) > 1),
@@ -225,6 +284,11 @@ def explore(ctx, tier, rng, search=False):
     return rep
 
 def replay(ctx, case):
+    if case.get('part') == 'long-selection':
+        rep = Report()
+        long_selection_case(ctx, rep, case)
+        bad = [m for m in rep.mismatches if m['kind'] == 'impl_vs_spec']
+        return not bad, json.dumps(jsonable(bad[0]['details']), default=str)[:800] if bad else 'ok'
     return G.replay_case(ctx, case, dyn=concretise)
 
 @signature('c04_ragged_values_partial_write')
